@@ -374,6 +374,17 @@ class ManyOf(Choices):
         pg_typing.ensure_value_spec(
             value_spec, pg_typing.List(pg_typing.Any()), path))
     if list_spec:
+      if (self.num_choices < list_spec.min_size
+          or (list_spec.max_size is not None
+              and self.num_choices > list_spec.max_size)):
+        raise ValueError(
+            utils.message_on_path(
+                f'The number of choices ({self.num_choices}) of '
+                f'{self.__class__.__name__} is out of the size range of '
+                f'{list_spec!r}.',
+                path,
+            )
+        )
       for i, c in enumerate(self.candidates):
         list_spec.element.value.apply(
             c,
